@@ -20,6 +20,7 @@ import (
 	"sort"
 	"strings"
 	"sync"
+	"sync/atomic"
 	"time"
 
 	"github.com/restic/restic/internal/data"
@@ -99,7 +100,7 @@ type c16Call struct {
 }
 
 // one session of concurrent savers on the repository
-func c16ApiSession(c *vctx, e *venv, rng *vrng, pool [][]byte, workers, ncalls int, dupPct int, async bool) ([]c16Call, error) {
+func c16ApiSession(c *vctx, e *venv, rng *vrng, pool [][]byte, workers, ncalls int, dupPct int, async bool, lockstep bool) ([]c16Call, error) {
 	var mu sync.Mutex
 	var calls []c16Call
 	type job struct {
@@ -118,6 +119,23 @@ func c16ApiSession(c *vctx, e *venv, rng *vrng, pool [][]byte, workers, ncalls i
 			}
 			jobs[w] = append(jobs[w], job{b, t, rng.chance(dupPct), rng.intn(4)})
 		}
+	}
+	var arrived []atomic.Int32
+	if lockstep {
+		// every saver requests the same sequence of blobs; a spinning barrier before each request makes
+		// all of them reach AddPending for the same new blob at (nearly) the same instant
+		for w := range jobs {
+			jobs[w] = jobs[w][:0]
+			for i := 0; i < ncalls; i++ {
+				b := pool[i%len(pool)]
+				t := restic.DataBlob
+				if b[0]&3 == 0 {
+					t = restic.TreeBlob
+				}
+				jobs[w] = append(jobs[w], job{b, t, false, 0})
+			}
+		}
+		arrived = make([]atomic.Int32, ncalls)
 	}
 	_, _, err := e.run(func(ctx context.Context, _ global.Options) error {
 		repo, err := e.openRepo(ctx)
@@ -142,7 +160,15 @@ func c16ApiSession(c *vctx, e *venv, rng *vrng, pool [][]byte, workers, ncalls i
 							<-d
 						}
 					}()
-					for _, j := range jobs[w] {
+					for ji, j := range jobs[w] {
+						if lockstep {
+							arrived[ji].Add(1)
+							for spin := 0; arrived[ji].Load() < int32(workers); spin++ {
+								if spin%64 == 63 {
+									runtime.Gosched()
+								}
+							}
+						}
 						for y := 0; y < j.yld; y++ {
 							runtime.Gosched()
 						}
@@ -186,7 +212,7 @@ func c16ApiSession(c *vctx, e *venv, rng *vrng, pool [][]byte, workers, ncalls i
 	return append([]c16Call(nil), calls...), err
 }
 
-func c16ApiCase(c *vctx, name string, rng *vrng, npool, bigEvery int, workers, ncalls, dupPct int, async bool) error {
+func c16ApiCase(c *vctx, name string, rng *vrng, npool, bigEvery int, workers, ncalls, dupPct int, async bool, lockstep bool) error {
 	e := newVenv(c, name)
 	e.gopts.PackSize = 4
 	if _, _, err := e.cli("init"); err != nil {
@@ -213,7 +239,7 @@ func c16ApiCase(c *vctx, name string, rng *vrng, npool, bigEvery int, workers, n
 		} else {
 			p = pool[len(pool)/3:]
 		}
-		calls, err := c16ApiSession(c, e, rng, p, workers, ncalls, dupPct, async)
+		calls, err := c16ApiSession(c, e, rng, p, workers, ncalls, dupPct, async, lockstep)
 		if err != nil {
 			return fmt.Errorf("C16 api session: %w", err)
 		}
@@ -240,6 +266,9 @@ func c16ApiCase(c *vctx, name string, rng *vrng, npool, bigEvery int, workers, n
 		}
 		if dupPct > 0 {
 			kind += "-dup"
+		}
+		if lockstep {
+			kind = "api-lockstep"
 		}
 		c.Hist(fmt.Sprintf("api-session=%d", sess))
 		c.Case(kind, len(calls) > len(after), len(calls),
@@ -420,11 +449,14 @@ func engineC16(c *vctx) error {
 				workers = 2
 			}
 		}
-		if bigEvery == 0 && i%5 == 4 {
-			// stampede: many savers released at once on one or two new blobs
-			workers, npool, ncalls = 32, 1+g.intn(2), 3
+		lockstep := false
+		if bigEvery == 0 && (i%5 == 4 || i%5 == 1) {
+			// lock-step stampede: 8 savers request the same 120-160 new tiny blobs in the same order
+			lockstep = true
+			workers, npool, dupPct = 8, 120+g.intn(40), 0
+			ncalls = npool
 		}
-		if err := c16ApiCase(c, fmt.Sprintf("api%d", i), g, npool, bigEvery, workers, ncalls, dupPct, i%2 == 1); err != nil {
+		if err := c16ApiCase(c, fmt.Sprintf("api%d", i), g, npool, bigEvery, workers, ncalls, dupPct, i%2 == 1 && !lockstep, lockstep); err != nil {
 			return err
 		}
 	}
